@@ -17,6 +17,8 @@ TRUSTED = [
     "the Numba-decorated routines are executed through .py_func in the correspondence and in the quick search "
     "(same source text); the thorough search runs the compiled code",
     "edge_length / integration_element is fed to the model as the float quotient the implementation computes",
+    "the models of _integrate and MultiplicationOperator are those of the repaired code (fix: commits edfc0c1, 040d575); "
+    "the correspondence accepts nothing else",
     "NumPy float64 arithmetic = IEEE binary64; comparison tolerance 1e-11 relative to the largest entry",
 ]
 ASSUMPTIONS = [
@@ -63,8 +65,8 @@ def gcase(c):
 
 
 def mcase(c):
-    return "(mkMCase %s %s %s %d %s %d %s %d %s %s %d %d %s %s)" % (
-        E.griddata(c["grid"]), gx(c["gx"]), E.spdata(c["test"]), c["kt"], E.spdata(c["trial"]), c["kr"],
+    return "(mkMCase %s %s %d %s %d %s %d %s %d %s %s %d %d %s %s)" % (
+        E.griddata(c["grid"]), gx(c["gx"]), c["mode"], E.spdata(c["test"]), c["kt"], E.spdata(c["trial"]), c["kr"],
         E.spdata(c["fun"]), c["kf"], vec(c["gcoef"]), E.rule(c["rule"]), c["rows"], c["cols"], E.matrix(c["matrix"]),
         E.dyc(c["tol"]))
 
@@ -140,17 +142,32 @@ def correspond(ctx):
 
 def search(ctx, strength):
     have = getattr(ctx, "search_result", None)
+    carried = []
     if have is not None and (have[0] == strength or have[0] == "thorough"):
         res = have[1]
     else:
-        r = ctx.run_impl("c13_impl.py", {"mode": "search", "strength": strength}, timeout=3600)
-        if r is None:
-            return
-        res = r["search"]
+        if have is not None:
+            # escalation after a broken tie/proof: keep what the quick search of the same run already found
+            carried = list(have[1]["failures"])
+            ctx.search_info["notes"].append({"quick_search_of_this_run": {"evaluations": have[1]["evaluations"],
+                                                                         "failures": len(carried)}})
+        if carried:
+            # the quick search already exhibits failing inputs: they are the replay, no need for the long search
+            res, carried = have[1], []
+            r = {"search": res}
+        else:
+            r = None
+        if r is not None:
+            pass
+        elif True:
+            r = ctx.run_impl("c13_impl.py", {"mode": "search", "strength": strength}, timeout=3600)
+            if r is None:
+                return
+            res = r["search"]
     ctx.search_info["evaluations"] = res["evaluations"]
     ctx.search_info["notes"].append({"worst_error": res["worst"], "skipped": res["skipped"], "wall_s": res["wall"],
                                      "py_func_mode": res.get("py_func_mode")})
-    for f in res["failures"]:
+    for f in carried + res["failures"]:
         ctx.failure(f["signature"], f["what"], f["data"])
 
 
@@ -170,10 +187,10 @@ META = {
                   "elements) with every shipped rule's weights summing to 1/2 within 1e-14, Laplace-Beltrami is symmetric, "
                   "annihilates constants and is positive semi-definite whenever the weights sum to a non-negative number, "
                   "projection of an in-space callable equals mass matrix times coefficients, evaluate_on_vertices returns the value "
-                  "of single-valued functions, _integrate is correct for idempotent multipliers and REFUTED for signed multipliers "
-                  "(witness), MultiplicationOperator is the intended operator on whole-grid spaces and REFUTED on restricted supports.",
+                  "of single-valued functions, integrate() is the quadrature of the represented function for every space (signed "
+                  "multipliers included), MultiplicationOperator entries are the quadrature of test . g . trial over the common support.",
     "level_note": "Trusted: Coq kernel (+ primitive ints for the table fact and the model evaluation); the hand model and its "
-                  "correspondence (39 library runs per quick check: all space kinds x support options, orders 1-4); tables translator. "
+                  "correspondence (41 library runs per quick check: all space kinds x support options, orders 1-4); tables translator. "
                   "Not proved: identification of the quadrature sums with exact integrals (uses C12's exactness sweep informally), "
                   "strict positive definiteness, inverse mass matrix (splu).",
     "design_ref": "DESIGN.md §7 C13",
